@@ -343,12 +343,9 @@ func runC07(ctx *core.Ctx, pool *par.Pool) {
 					return
 				}
 				path := append(from.Path(), s.Op)
-				if !sameLogical(base.Log, s.Log, usesOverflow(path)) {
-					var a, b pagedrv.Logical
-					json.Unmarshal([]byte(base.Log), &a)
-					json.Unmarshal([]byte(s.Log), &b)
-					ctx.Violate("abort/state", fmt.Sprintf("cfg %s: after [%s] the file differs from the state before the aborted transaction began [%s]: %s",
-						cfg.Name, pagedrv.PathString(path), pagedrv.PathString(base.Path()), pagedrv.DiffLogical(a, b)),
+				if base.Log != xstate.LogKey(s.Log) && (!usesOverflow(path) || base.NoStats != noStatsKey(s.Log)) {
+					ctx.Violate("abort/state", fmt.Sprintf("cfg %s: after [%s] the file differs from the state before the aborted transaction began [%s] (replay prints the difference; state now: %s)",
+						cfg.Name, pagedrv.PathString(path), pagedrv.PathString(base.Path()), trunc300(s.Log)),
 						map[string]interface{}{"kind": "twin", "task": xstate.TwinTask{Type: "twin", Cfg: cfg.Name, PathA: base.Path(), PathB: path, Class: "abort"}})
 					return
 				}
@@ -385,18 +382,22 @@ func usesOverflow(path []O) bool {
 	return false
 }
 
-func sameLogical(a, b string, ignoreStats bool) bool {
-	if a == b {
-		return true
+// noStatsKey is the key of a logical state with FileStats masked.
+func noStatsKey(log string) string {
+	if log == "" {
+		return ""
 	}
-	if !ignoreStats {
-		return false
+	var l pagedrv.Logical
+	json.Unmarshal([]byte(log), &l)
+	l.Stats = pagedrv.Logical{}.Stats
+	return xstate.LogKey(l.String())
+}
+
+func trunc300(s string) string {
+	if len(s) > 300 {
+		return s[:300] + "..."
 	}
-	var la, lb pagedrv.Logical
-	json.Unmarshal([]byte(a), &la)
-	json.Unmarshal([]byte(b), &lb)
-	la.Stats, lb.Stats = pagedrv.Logical{}.Stats, pagedrv.Logical{}.Stats
-	return la.String() == lb.String()
+	return s
 }
 
 // ---- C10 ----
@@ -423,12 +424,9 @@ func runC10(ctx *core.Ctx, pool *par.Pool) {
 				}
 				reopens++
 				path := append(from.Path(), s.Op)
-				if from.Log != "" && !sameLogical(from.Log, s.Log, usesOverflow(path)) {
-					var a, b pagedrv.Logical
-					json.Unmarshal([]byte(from.Log), &a)
-					json.Unmarshal([]byte(s.Log), &b)
-					ctx.Violate("reopen/state", fmt.Sprintf("cfg %s: close+open after [%s] changed the logical file: %s",
-						cfg.Name, pagedrv.PathString(from.Path()), pagedrv.DiffLogical(a, b)),
+				if from.Log != "" && from.Log != xstate.LogKey(s.Log) && (!usesOverflow(path) || from.NoStats != noStatsKey(s.Log)) {
+					ctx.Violate("reopen/state", fmt.Sprintf("cfg %s: close+open after [%s] changed the logical file (replay prints the difference; state now: %s)",
+						cfg.Name, pagedrv.PathString(from.Path()), trunc300(s.Log)),
 						map[string]interface{}{"kind": "twin", "task": xstate.TwinTask{Type: "twin", Cfg: cfg.Name, PathA: from.Path(), PathB: path, Class: "reopen"}})
 					return
 				}
